@@ -181,6 +181,7 @@ class C15(Check):
             simfs.set_real_listdir_perm(dpath, perm)
         if ns > 1:
             res.probe("enumeration_permuted")
+            res.fault("directory_enumeration_permuted", scn["ndirs"])
         # ---- reference volume (C, Z, Y, X) from the statement --------------
         in_sizes = (nc, nr, ns)
         size = [0, 0, 0]
